@@ -1,11 +1,13 @@
 import Pw.C01.Driver
 import Pw.C16.Driver
+import Pw.C17.Driver
 open Proto
 
 /-- all request handlers; each property contributes `CNN.handlers` -/
 def handlers : List (String × Handler) :=
   C01.handlers
   ++ C16.handlers
+  ++ C17.handlers
 
 def dispatch (line : String) : String :=
   let (fn, args) := parseLine line
